@@ -116,8 +116,11 @@ PROPS['C08'] = {
     'level': 'exploration',
     'exhaustive_possible': True,
     'runs': [{'name': 'asan', 'flavour': 'asan', 'driver': 'drv_c08', 'timeout': 1800},
-             {'name': 'native', 'flavour': 'asan-native', 'driver': 'drv_c08', 'env': {'PV_SCALE': '10'}, 'shards': 6, 'timeout': 1800}],
-    'require': {'auto.ERR_LANG': 20000, 'auto.OK': 4000, 'auto.preceded_by_a_successful_restore_in_the_same_language': 10000, 'words.swept': 2048 * 3 + 7 * 512, 'tokens.prefix.en.accepted': 2500, 'tokens.prefix.en.rejected': 5000,
+             {'name': 'native', 'flavour': 'asan-native', 'driver': 'drv_c08', 'env': {'PV_SCALE': '10'}, 'shards': 6, 'timeout': 1800},
+             # coverage-guided differential: libFuzzer mutates phrases, the target compares both decoders with the reference pipeline
+             {'name': 'fuzz-model', 'kind': 'fuzz', 'flavour': 'fuzz', 'driver': 'fuzz_api', 'mode': 4, 'runs_quick': 25000, 'runs_thorough': 1500000}] +
+            [{'name': 'fuzz-model-%d' % k, 'kind': 'fuzz', 'flavour': 'fuzz', 'driver': 'fuzz_api', 'mode': 4, 'runs_quick': 25000, 'runs_thorough': 1500000, 'seed_offset': k, 'tiers': ('thorough',)} for k in (1, 2, 3)],
+    'require': {'fuzz.execs.fuzz-model': 10000, 'auto.ERR_LANG': 20000, 'auto.OK': 4000, 'auto.preceded_by_a_successful_restore_in_the_same_language': 10000, 'words.swept': 2048 * 3 + 7 * 512, 'tokens.prefix.en.accepted': 2500, 'tokens.prefix.en.rejected': 5000,
                 'tokens.accent-terminated-prefix.es.accepted': 100, 'tokens.foreign-letter-inserted.fr.rejected': 1000, 'mixed.permitted.OK': 10000, 'long.tokens.ERR_LANG': 1000, 'tokens.accent-block-edge.es.rejected': 1000},
 }
 
@@ -132,7 +135,7 @@ MANIFEST_TEXT = {
             'text': 'All 10 x 2048 x 16 (language, index, position) combinations are driven through polyseed_encode (harvesting the words the library emits) and through both decoders, and compared with the frozen lists; pairwise uniqueness clauses are evaluated on the harvested words and through the API. The finite space named by the property is enumerated completely; the claim is limited to the executions produced. A clang-built stripe (1/10 of the sweep) repeats both directions. A first section runs in forked children of a process that has not looked up any word yet: the first decode that touches a language happens while the allocator refuses its 1st/2nd/3rd request, and afterwards all 2048 words of that list and of two others must still decode.',
             'note': _TB + '"As published" means equal to golden/*.txt extracted from the pinned commit (BIP-39 cannot be fetched offline). The clause "no word is a prefix of another" is checked operationally (DESIGN.md C07).'},
     'C08': {'technique': 'runtime monitoring: decode_explicit on enumerated token variants vs reference matcher (ASan/UBSan)',
-            'text': 'For every word (all of es/fr/en on every run, every language in thorough) every prefix length x accent subset x NFC/NFD form and nine boundary classes are embedded in valid phrases and decoded by the real library; acceptance, status and seed must equal the model matcher. Plus random phrases with an independent variant at each position. Further classes: code points at the edges of the accent block (U+02FF, U+0370..U+0380, ...) and tokens of 250-300 letters that start like a word (no letter counter may wrap). A quarter of the variant phrases also go through polyseed_decode (auto-detection), half of them right after a successful restore in the same language, and are compared with the model\'s auto-detection pipeline.',
+            'text': 'For every word (all of es/fr/en on every run, every language in thorough) every prefix length x accent subset x NFC/NFD form and nine boundary classes are embedded in valid phrases and decoded by the real library; acceptance, status and seed must equal the model matcher. Plus random phrases with an independent variant at each position. Further classes: code points at the edges of the accent block (U+02FF, U+0370..U+0380, ...) and tokens of 250-300 letters that start like a word (no letter counter may wrap). A quarter of the variant phrases also go through polyseed_decode (auto-detection), half of them right after a successful restore in the same language, and are compared with the model\'s auto-detection pipeline. A coverage-guided libFuzzer target (clang, ASan+UBSan) mutates phrases and compares both decoders with the reference pipeline on every input (definite model predictions only).',
             'note': _TB + 'Tokens with combining marks outside U+0300-U+036F in es/fr are treated as unspecified (not judged).'},
     'C16': {'technique': 'runtime monitoring: dead-stack scan on driver-owned thread stacks + inspection of blocks at the injected free, 6 optimisation levels/compilers, with positive control',
             'text': 'Each API function x exit path x language runs on a pre-patterned stack owned by the driver; afterwards the dead stack is searched for secret/password/mask windows, phrase tokens and word-index runs, and every block reaching the injected free must be zero and covered by a logged injected-memzero call. A log-only memzero control run must find residue, otherwise the check is inconclusive (exit 2). The same needles are searched in the static storage of the program and in the thread-local/descriptor area of the monitored thread after it has exited.',
@@ -247,13 +250,16 @@ PROPS['C09'] = {
     'level': 'exploration',
     'runs': [{'name': 'asan', 'flavour': 'asan', 'driver': 'drv_c09', 'timeout': 1800},
              {'name': 'native', 'flavour': 'asan-native', 'driver': 'drv_c09', 'env': {'PV_SCALE': '10'}, 'shards': 4, 'timeout': 1800},
-             {'name': 'msan', 'flavour': 'msan', 'driver': 'drv_c09', 'env': {'PV_SCALE': '10', 'PV_NO_STATIC_MONITOR': '1'}, 'shards': 4, 'timeout': 1800}],
-    'require': {'concurrent.strings_satisfying_the_relation': 5000, 'outcome.NUM_WORDS': 1000, 'outcome.LANG': 1000, 'outcome.MULT_LANG': 1000, 'outcome.unique.OK': 1000, 'outcome.unique.ERR_CHECKSUM': 1000, 'outcome.unique.ERR_UNSUPPORTED': 1000,
+             {'name': 'msan', 'flavour': 'msan', 'driver': 'drv_c09', 'env': {'PV_SCALE': '10', 'PV_NO_STATIC_MONITOR': '1'}, 'shards': 4, 'timeout': 1800},
+             # coverage-guided: libFuzzer mutates phrases, the target checks the auto-vs-explicit relation on every input
+             {'name': 'fuzz-relation', 'kind': 'fuzz', 'flavour': 'fuzz', 'driver': 'fuzz_api', 'mode': 3, 'runs_quick': 30000, 'runs_thorough': 1500000}] +
+            [{'name': 'fuzz-relation-%d' % k, 'kind': 'fuzz', 'flavour': 'fuzz', 'driver': 'fuzz_api', 'mode': 3, 'runs_quick': 30000, 'runs_thorough': 1500000, 'seed_offset': k, 'tiers': ('thorough',)} for k in (1, 2, 3)],
+    'require': {'fuzz.execs.fuzz-relation': 10000, 'concurrent.strings_satisfying_the_relation': 5000, 'outcome.NUM_WORDS': 1000, 'outcome.LANG': 1000, 'outcome.MULT_LANG': 1000, 'outcome.unique.OK': 1000, 'outcome.unique.ERR_CHECKSUM': 1000, 'outcome.unique.ERR_UNSUPPORTED': 1000,
                 'armed.auto.ERR_MEMORY': 1000, 'armed.memory_before_unsupported': 300, 'armed.checksum_before_memory': 300, 'ambiguous.constructed': 500,
                 'multi3.constructed': 500, 'multi3.phrases_recognised_by_3_languages': 200, 'lang_out_null.ERR_MULT_LANG': 1000, 'lang_out_null.OK': 1000},
 }
 MANIFEST_TEXT['C09'] = {'technique': 'runtime monitoring: relation between the library\'s two decoders on the same input (1 auto + 10 explicit decodes per string), model token count, armed allocator for precedence (ASan/UBSan)',
-    'text': 'For grammar-generated strings (all edit classes, all languages, ambiguous phrases for every overlapping language pair, multi-fault phrases) the automatic decoder is compared with the set of explicit results: NUM_WORDS iff the model token count differs from 16, LANG iff no language recognises all tokens, MULT_LANG iff two or more do (regardless of checksum), else exactly the unique language\'s status, lang_out and seed; with the allocator armed to fail, word-count/language/checksum errors must still win and MEMORY must win over UNSUPPORTED. A dedicated section builds phrases recognised by three to six languages at once (shared 4-letter abbreviations). Every string is also decoded with lang_out = NULL (status and seed must be identical); a MemorySanitizer-built stripe and a section with 8 concurrent threads repeat the relation.',
+    'text': 'For grammar-generated strings (all edit classes, all languages, ambiguous phrases for every overlapping language pair, multi-fault phrases) the automatic decoder is compared with the set of explicit results: NUM_WORDS iff the model token count differs from 16, LANG iff no language recognises all tokens, MULT_LANG iff two or more do (regardless of checksum), else exactly the unique language\'s status, lang_out and seed; with the allocator armed to fail, word-count/language/checksum errors must still win and MEMORY must win over UNSUPPORTED. A dedicated section builds phrases recognised by three to six languages at once (shared 4-letter abbreviations). Every string is also decoded with lang_out = NULL (status and seed must be identical); a MemorySanitizer-built stripe and a section with 8 concurrent threads repeat the relation. A coverage-guided libFuzzer target checks the same relation (and the lang_out = NULL relation) on every mutated input.',
     'note': _TB + 'The relation needs no matcher model; the token count and precedence rules come from the model. Inputs whose NFKD form exceeds the public buffer are checked for the relation only.'}
 
 PROPS['C14'] = {
